@@ -315,6 +315,7 @@ type gAction struct {
 	L     string          `json:"l"`
 	Wl    string          `json:"wl"`  // pushbad: the layout of the misfit part ("" = the default choice)
 	Rep   *flatRep        `json:"rep"` // newflat: Deflate(v), computed by the model
+	How   string          `json:"how"`  // setself: "rev" or "rot"
 	Room  bool            `json:"room"` // newflat: the slices handed over have capacity behind their length
 }
 
@@ -545,6 +546,7 @@ func geomopsHandler(raw json.RawMessage) map[string]any {
 	init := map[string]any{"o1": proj(o[1], true), "o2": proj(o[2], true)}
 	for _, a := range c.Hist {
 		errc := "none"
+		var partObj geom.T
 		ev, msg := call(func() {
 			switch a.Op {
 			case "push":
@@ -600,6 +602,58 @@ func geomopsHandler(raw json.RawMessage) map[string]any {
 				errc = errClass(setCoords(o[a.To], c.K, a.V))
 			case "setlayout":
 				errc = errClass(o[a.To].(*geom.GeometryCollection).SetLayout(layoutOf(a.L)))
+			case "setself": // SetCoords fed with the object's own Coord(i) views, reversed or rotated by one
+				type coorder interface {
+					NumCoords() int
+					Coord(int) geom.Coord
+				}
+				g := o[a.To].(coorder)
+				if o[a.To].Stride() == 0 {
+					break // nothing to hand back
+				}
+				n := g.NumCoords()
+				views := make([]geom.Coord, 0, n)
+				for i := 0; i < n; i++ {
+					j := n - 1 - i
+					if a.How == "rot" {
+						j = (i + 1) % n
+					}
+					views = append(views, g.Coord(j))
+				}
+				switch g := o[a.To].(type) {
+				case *geom.LineString:
+					_, err := g.SetCoords(views)
+					errc = errClass(err)
+				case *geom.LinearRing:
+					_, err := g.SetCoords(views)
+					errc = errClass(err)
+				default:
+					panic("harness: setself on " + c.K)
+				}
+			case "setpart": // SetCoords on the part object the accessor hands out (no call when there is no such part)
+				switch g := o[a.To].(type) {
+				case *geom.Polygon:
+					if a.Pos < g.NumLinearRings() {
+						partObj = g.LinearRing(a.Pos)
+					}
+				case *geom.MultiLineString:
+					if a.Pos < g.NumLineStrings() {
+						partObj = g.LineString(a.Pos)
+					}
+				case *geom.MultiPolygon:
+					if a.Pos < g.NumPolygons() {
+						partObj = g.Polygon(a.Pos)
+					}
+				case *geom.MultiPoint:
+					if a.Pos < g.NumPoints() {
+						partObj = g.Point(a.Pos)
+					}
+				default:
+					panic("harness: setpart on " + c.K)
+				}
+				if partObj != nil {
+					errc = errClass(setCoords(partObj, partKind(c.K), a.V))
+				}
 			default:
 				panic("harness: unknown op " + a.Op)
 			}
@@ -614,7 +668,15 @@ func geomopsHandler(raw json.RawMessage) map[string]any {
 				pl = append(pl, map[string]any{"k": e.k, "v": e.v, "p": proj(e.g, false)})
 			}
 		}
-		steps = append(steps, map[string]any{"err": errc, "o1": proj(o[1], true), "o2": proj(o[2], true), "pool": pl})
+		step := map[string]any{"err": errc, "o1": proj(o[1], true), "o2": proj(o[2], true), "pool": pl}
+		if a.Op == "setpart" {
+			if partObj != nil {
+				step["part"] = proj(partObj, false)
+			} else {
+				step["part"] = map[string]any{"pan": []string{"no such part"}, "val": []int{}}
+			}
+		}
+		steps = append(steps, step)
 	}
 	return map[string]any{"steps": steps, "init": init}
 }
